@@ -73,6 +73,11 @@ def listMax? : List Nat → Option Nat
   | [] => none
   | x :: xs => some (xs.foldl max x)
 
+/-- `Iterator::min` over a collection of `usize` -/
+def listMin? : List Nat → Option Nat
+  | [] => none
+  | x :: xs => some (xs.foldl min x)
+
 theorem foldl_max_assoc (a b : Nat) (l : List Nat) : l.foldl max (max a b) = max a (l.foldl max b) := by
   induction l generalizing b with
   | nil => rfl
